@@ -786,7 +786,15 @@ impl AsLogicalPlan for LogicalPlanNode {
                     .build()
             }
             LogicalPlanType::EmptyRelation(empty_relation) => {
-                LogicalPlanBuilder::empty(empty_relation.produce_one_row).build()
+                match empty_relation.schema.clone() {
+                    Some(pb_schema) => Ok(LogicalPlan::EmptyRelation(EmptyRelation {
+                        produce_one_row: empty_relation.produce_one_row,
+                        schema: pb_schema.try_into()?,
+                    })),
+                    None => {
+                        LogicalPlanBuilder::empty(empty_relation.produce_one_row).build()
+                    }
+                }
             }
             LogicalPlanType::CreateExternalTable(create_extern_table) => {
                 let pb_schema = (create_extern_table.schema.clone()).ok_or_else(|| {
@@ -1858,11 +1866,13 @@ impl AsLogicalPlan for LogicalPlanNode {
                 })
             }
             LogicalPlan::EmptyRelation(EmptyRelation {
-                produce_one_row, ..
+                produce_one_row,
+                schema: df_schema,
             }) => Ok(LogicalPlanNode {
                 logical_plan_type: Some(LogicalPlanType::EmptyRelation(
                     protobuf::EmptyRelationNode {
                         produce_one_row: *produce_one_row,
+                        schema: Some(df_schema.try_into()?),
                     },
                 )),
             }),
